@@ -2,6 +2,7 @@ import EpgVerif.Props.C02
 import EpgVerif.Props.C02Run
 import EpgVerif.Tie.DiffSites
 import EpgVerif.Props.C02Fam
+import EpgVerif.Props.C02FamR
 open EpgVerif.Props.C02
 #print axioms coeff_hasDerivAt
 #print axioms relaxation_defined
@@ -24,3 +25,5 @@ open EpgVerif.Props.C02
 #print axioms precession_defined
 #print axioms famPhi
 #print axioms famP
+#print axioms famR
+#print axioms famR0
